@@ -109,9 +109,13 @@ def main() -> int:
 
         proof_broken = bool(aud["failures"])
         tie_broken = bool(res.tie_breaks)
-        if (proof_broken or tie_broken) and not res.prop_failures and hasattr(mod, "search"):
-            res.notes.append("proof or correspondence broken: running the widened failing-input search")
+        edited = lib.changed_fingerprints(pid)
+        if edited:
+            res.notes.append("the literals of hand-modelled function(s) changed (" + ", ".join(edited) + "): widened search")
+        if (proof_broken or tie_broken or edited) and not res.prop_failures and hasattr(mod, "search"):
+            res.notes.append("proof or correspondence broken, or a modelled function edited: running the widened failing-input search")
             mod.search(res, tier, seed)
+            tie_broken = bool(res.tie_breaks)
 
         known = lib.load_known_findings()
         violations = 0
